@@ -268,8 +268,26 @@ class FactEngine(object):
             return [(frozenset(base), None)]
         t = dtype(ks[0])
         if t != 'bool':
-            return [(frozenset(base), self.key(ks[0]))]
+            return [(frozenset(base + list(fs)), self.key(arm)) for (fs, arm) in self.value_cases(ks[0])]
         return [(frozenset(base + list(fs)), v) for (fs, v) in self.bool_cases(ks[0])]
+
+    def value_cases(self, e):
+        """[(facts, sub-expression)]: the operand a (possibly nested) conditional expression evaluates to, with the
+        facts of the tests that select it."""
+        x = peel(e)
+        while x is not None and x.get('kind') in ('CXXConstructExpr', 'CXXBindTemporaryExpr', 'MaterializeTemporaryExpr', 'ExprWithCleanups') \
+                and len([a_ for a_ in kids(x) if a_.get('kind') != 'CXXDefaultArgExpr']) == 1:
+            x = peel([a_ for a_ in kids(x) if a_.get('kind') != 'CXXDefaultArgExpr'][0])     # copy of the selected value
+        if x is not None and x.get('kind') == 'ConditionalOperator':
+            c, a, b = kids(x)
+            out = []
+            for (fc, vc) in self.bool_cases(c):
+                if not isinstance(vc, bool):
+                    return [([], e)]
+                for (fs, arm) in self.value_cases(a if vc else b):
+                    out.append((list(fc) + list(fs), arm))
+            return out
+        return [([], e)]
 
     def _truthy(self, x, truth, key=None, ty=None):
         key = key or self.key(x)
@@ -323,6 +341,8 @@ class FactEngine(object):
                 v = self.folder.fold(label[1])
                 if v is not None:
                     return frozenset(st | {canon('==', self.key(n.ast), 'n:%d' % v)})
+            if n.kind == 'switch' and label in ('default', 'nomatch'):
+                return frozenset(st | self._switch_default_facts(n))
             return st
 
         def meet(ins):
@@ -366,6 +386,8 @@ class FactEngine(object):
                     v = self.folder.fold(lab[1])
                     if v is not None:
                         new = {canon('==', self.key(n.ast), 'n:%d' % v)}
+                elif n.kind == 'switch' and lab in ('default', 'nomatch'):
+                    new = self._switch_default_facts(n)
                 if new:
                     f2 = frozenset(fs | new)
                     e2 = frozenset(ever | new)
@@ -380,6 +402,17 @@ class FactEngine(object):
         if count[0] > cap:
             from .frontend import AnalysisBroken
             raise AnalysisBroken('path enumeration exceeded %d paths in %s' % (cap, self.fn.get('name')))
+        return out
+
+    def _switch_default_facts(self, n):
+        """On the default (or no-match) edge of a switch the operand differs from every case label."""
+        out = set()
+        k = self.key(n.ast)
+        for (m, lab) in n.succs:
+            if isinstance(lab, tuple):
+                v = self.folder.fold(lab[1])
+                if v is not None:
+                    out.add(canon('!=', k, 'n:%d' % v))
         return out
 
     # -- queries
